@@ -564,7 +564,13 @@ class Interp(object):
 
     def ex_Name(self, e, fr):
         if e.id in fr.env:
-            return fr.env[e.id]
+            v = fr.env[e.id]
+            if v.kind in ('optint', 'optbag'):
+                # an optional local splits the path the first time it is read; the branch taken fixes it for the rest of the path
+                from .pathsmodel import resolve_opt
+                v = resolve_opt(self, v)
+                fr.env[e.id] = v
+            return v
         return self.engine.global_name(e.id, fr, self)
 
     def ex_Tuple(self, e, fr):
@@ -1014,6 +1020,8 @@ class Interp(object):
                 return True
             parts = [p for p in parts if p is not False]
             return z3.Or(*parts) if parts else False
+        if k == 'keymap':
+            return c.dom(x.c) if x.kind == 'pathkey' else False
         if k == 'dict' and getattr(c, 'symset', None) is not None:
             if x.kind != 'node':
                 return False
@@ -1133,9 +1141,13 @@ class Interp(object):
                 raise PyRaise('IndexError', 'tuple index at %s' % self.ctx.where)
             return c.items[ci]
         if k == 'dict':
-            for kk, vv in c.pairs:
+            for idx_, (kk, vv) in enumerate(c.pairs):
                 eq = veq(kk, key)
                 if eq is True:
+                    if vv.kind in ('optint', 'optbag'):
+                        from .pathsmodel import resolve_opt
+                        vv = resolve_opt(self, vv)
+                        c.pairs[idx_] = (kk, vv)
                     return vv
                 if eq is not False:
                     if self.ctx.branch(eq, 'dictlit-key'):
@@ -1157,6 +1169,20 @@ class Interp(object):
         if k == 'seq':
             from .seqs import seq_getitem
             return seq_getitem(self, c, key)
+        if k == 'path':
+            ci = concrete_int(key.z) if key.kind == 'int' else None
+            if ci not in (0, -1):
+                raise Undecided('index %r into a path' % (ci,))
+            if self.ctx.branch(c.w.PL(c.c) < 1, 'IndexError(path)'):
+                raise PyRaise('IndexError', 'hop of an empty path')
+            tm = c.w.T0(c.c) if ci == 0 else c.w.T1(c.c)
+            return VTuple([VOpaque(fresh('hop_a', Obj), 'node'), VOpaque(fresh('hop_b', Obj), 'node'), VInt(tm)])
+        if k == 'keymap':
+            if key.kind != 'pathkey':
+                raise PyRaise('KeyError', 'key map')
+            if self.ctx.branch(z3.Not(c.dom(key.c)), 'KeyError(keymap)'):
+                raise PyRaise('KeyError', 'key map')
+            return VInt(c.val(key.c))
         if k == 'vmap':
             return c.getitem(self, key)
         raise Undecided('subscript of %s at %s' % (k, self.ctx.where))
@@ -1482,6 +1508,19 @@ class Interp(object):
         g['Len'] = z3.Store(g['Len'], r, n + 1)
         v.esc = ('interval', g, r, n, 0)
         return VNone
+
+    def m_optbag_append(self, bag, argv, kwv):
+        p = argv[0]
+        if p.kind != 'path' or p.pos is None:
+            raise Undecided('append of something other than an input path')
+        bag.cnt = z3.Store(bag.cnt, p.pos, bag.cnt[p.pos] + 1)
+        return VNone
+
+    def m_keymap_values(self, km, argv, kwv):
+        v = V()
+        v.kind = 'keyvals'
+        v.km = km
+        return v
 
     def m_list_append(self, lst, argv, kwv):
         if lst.esc:
